@@ -116,21 +116,23 @@ def static_job(item):
 
 
 def nested_only(body, params):
-    """every remaining occurrence of a parameter sits inside a template argument list that is itself nested in
-    another template argument list (the C02 known finding), or is a scoped use nested in one"""
+    """every remaining occurrence of a parameter is one the C02 known finding explains: it sits inside a template
+    argument list that is itself nested in another one (depth >= 2), or it is a scoped use (T::X) or `This` inside a
+    template argument list (depth >= 1).  A plain parameter at the first level IS substituted by the implementation,
+    so finding one there is a new violation."""
     for p in params:
         for m in re.finditer(r"(?<!::)(?<![A-Za-z0-9_])%s(?![A-Za-z0-9_])" % re.escape(p), body):
             depth = 0
-            i = m.start()
+            j = m.start()
             # count unmatched '<' to the left within the statement
-            j = i
             while j > 0 and body[j] not in ";{}":
                 if body[j] == ">":
                     depth -= 1
                 elif body[j] == "<":
                     depth += 1
                 j -= 1
-            if depth < 1:
+            scoped = p == "This" or body[m.end():m.end() + 2] == "::"
+            if depth < 1 or (depth == 1 and not scoped):
                 return False
     return True
 
